@@ -96,11 +96,6 @@ theorem C31_query (steps : List Step) (n : DName) (cls : Nat) :
   the next reload starts from. `loopRun sh` is the loop with that plumbing explicit, for a loop
   of shape `sh`; the shape of the actual source is extracted on every run. -/
 
-/-- the shape of the loop in the repository under test (tools/extract_reload.py) -/
-def codeShape : LoopShape :=
-  ⟨Gen.reloadStartupInstallsCatalog, Gen.reloadLoopThreadsCatalog, Gen.reloadInstallsCatalog,
-   Gen.reloadBaselineIsCurrent⟩
-
 /-- **Structural premise, checked on the source on every run**: after the start-up load the
     catalog is installed; the SIGHUP arm assigns the catalog returned by `reload_zones_and_keys`
     to the variable it passes to the next call; a successful reload installs that catalog in the
